@@ -45,25 +45,25 @@ type Pointer struct {
 	Base   *SV // slice (PSliceElem)
 	Idx    Term
 	Field  int
-	Obj    Term        // PExtField: the pointer (reference)
-	FType  types.Type  // PExtField: field type
+	Obj    Term       // PExtField: the pointer (reference)
+	FType  types.Type // PExtField: field type
 }
 
 type SV struct {
-	K     Kind
-	T     Term // scalar or array term
-	Ref   Term // slice: backing reference (Int)
-	Off   Term
-	Len   Term
-	Cap   Term
-	Elem  string      // slice element class: "byte" "string" "any" "other"
-	Cell  *ssa.Alloc  // slice backed by a local array cell (varargs)
-	Tuple []SV
-	Ptr   *Pointer
-	Fn    *ssa.Function
-	Why   string // KOpaque: reason
-	Fields []SV // KStruct
-	Elems map[int64]Term // KArray held in a local cell: elements stored at literal indices
+	K      Kind
+	T      Term // scalar or array term
+	Ref    Term // slice: backing reference (Int)
+	Off    Term
+	Len    Term
+	Cap    Term
+	Elem   string     // slice element class: "byte" "string" "any" "other"
+	Cell   *ssa.Alloc // slice backed by a local array cell (varargs)
+	Tuple  []SV
+	Ptr    *Pointer
+	Fn     *ssa.Function
+	Why    string         // KOpaque: reason
+	Fields []SV           // KStruct
+	Elems  map[int64]Term // KArray held in a local cell: elements stored at literal indices
 }
 
 func Scalar(t Term) SV { return SV{K: KScalar, T: t} }
@@ -77,10 +77,10 @@ var heapSort = map[string]string{
 }
 
 type loopFrame struct {
-	pre      *State
-	head     *State // state right after havoc+assume
-	variant  Term
-	hasVar   bool
+	pre     *State
+	head    *State // state right after havoc+assume
+	variant Term
+	hasVar  bool
 }
 
 type State struct {
